@@ -9,6 +9,8 @@ The theorems are about ALL states `s` (any heap, any pool, well formed or not), 
 of the alphabet `Op` and ALL histories.
 -/
 import Barril.Proofs.HeapEval
+import Barril.Proofs.HeapPickle
+import Barril.Proofs.HeapInv
 
 namespace Barril.Heap
 open Barril
@@ -170,10 +172,9 @@ theorem createCopy_eq (db : Db) (s s' : St) (i : Nat) (out : Out) (a : Snap) (ha
   exact ⟨hout, hi, h1, h2, objEq_of_same_snap h1 h2⟩
 
 /-
-Full statement (not proved):
-  theorem pickle_scalar_eq : exec db (.pickle i) s = .ok (.obj j true, s') → snap s i = some (.scalar qs v) →
-      Reachable db s → objEq i j s' = .ok (true, s')
-What is proved: the unpickled Scalar is a new pool member with the SAME number whose quantity is what
+The full-strength statement is `pickle_scalar_eq` / `pickle_scalar_eq_reachable` below (proved from the interning
+invariant `CInv` of `Proofs/HeapPickle.lean`, which `Proofs/HeapInv.lean` shows to hold on every reachable state).
+The `_partial` form is kept: it needs no invariant and no hypothesis on the database.  What it proves: the unpickled Scalar is a new pool member with the SAME number whose quantity is what
 `ObtainQuantity` returns for the reduced state of the original's quantity, and `unpickled == original`
 holds exactly when that re-obtained quantity equals the original's (`Quantity.__eq__`).  Missing: the
 invariant that every entry of `quantities_cache` still agrees with its key (the frame theorem above shows it
@@ -232,6 +233,123 @@ theorem pickle_fixedarray_eq_partial (db : Db) (s s' : St) (i d q : Nat) (c : Re
   rw [bind_eval, getQ_of hq]; simp only
   rw [bind_eval, getQ_of hq']; simp only
   simp [pure_eval, hu]
+
+/-! ## Pickles at full strength (on states with the interning invariant `CInv`, `Proofs/HeapPickle.lean`) -/
+
+/-- `pickle.loads(pickle.dumps(x)) == x` for a Scalar on ANY quantity (simple, derived, empty, with an unknown-unit
+caption): on every state that satisfies the interning invariant `CInv` (every quantity object is as constructed,
+every `quantities_cache` entry agrees with its key - the heap-model form of C07's invariant) the unpickled Scalar
+is a NEW pool member with exactly the same snapshot as the original (number, dict contents, caption, derived
+flag, cached unit strings), the original is unchanged, and `__eq__` answers True.  `hz`: no category is named
+`''` (the model writes `None` and `''` alike as 0). -/
+theorem pickle_scalar_eq (db : Db) (hz : db.catByName 0 = none) (s s' : St) (inv : CInv db s) (i : Nat) (qs : QSnap)
+    (x : Rat) (out : Out) (hs : snap s i = some (.scalar qs x)) (h : exec db (.pickle i) s = .ok (out, s')) :
+    ∃ j, out = .obj j true ∧ s.objs.length ≤ j ∧ snap s' i = some (.scalar qs x) ∧
+      snap s' j = some (.scalar qs x) ∧ objEq i j s' = .ok (true, s') := by
+  obtain ⟨q, ho, hq⟩ := snap_inv hs
+  obtain ⟨q', s1, hp, hout, hs'⟩ := pickle_scalar_parts ho h
+  have hq' : qsnap s1 q' = some qs := pickleQuantity_same hz inv hq hp
+  have fr := (pickleQuantity_safe.run s q' s1 (Nat.le_refl _) hp).1
+  have hoi : s1.objs[i]? = some (.scalar q x) := fr.obj ho
+  have hlen : s.objs.length ≤ s1.objs.length := by
+    obtain ⟨t, ht⟩ := fr.objs; rw [ht]; simp
+  have h1 : snap s' i = some (.scalar qs x) := by
+    rw [← snap_stable fr hs]; subst hs'
+    exact snap_congr (s := s1) (s' := { s1 with objs := s1.objs ++ [.scalar q' x] }) rfl rfl
+      (by show (s1.objs ++ [Obj.scalar q' x])[i]? = s1.objs[i]?; rw [hoi]; exact getElem?_append_some hoi)
+  have h2 : snap s' s1.objs.length = some (.scalar qs x) := by
+    subst hs'
+    have hj : ({ s1 with objs := s1.objs ++ [Obj.scalar q' x] } : St).objs[s1.objs.length]? = some (.scalar q' x) := by
+      simp
+    unfold snap
+    rw [hj]
+    simp only
+    rw [qsnap_congr (s := s1) (s' := { s1 with objs := s1.objs ++ [Obj.scalar q' x] }) rfl rfl q', hq']
+    rfl
+  exact ⟨s1.objs.length, hout, hlen, h1, h2, objEq_of_same_snap h1 h2⟩
+
+/-- the same for a FixedArray: the unpickled array is a NEW pool member over a NEW container cell `c'` (allocated
+after every cell of the state before) of the same kind with the same contents, same dimension, a quantity with
+the same snapshot, and `__eq__` answers True -/
+theorem pickle_fixedarray_eq (db : Db) (hz : db.catByName 0 = none) (s s' : St) (inv : CInv db s) (i d : Nat)
+    (qs : QSnap) (c : Ref) (k : Kind) (xs : List Rat) (out : Out) (hs : snap s i = some (.fixed d qs c k xs))
+    (h : exec db (.pickle i) s = .ok (out, s')) :
+    ∃ j c', out = .obj j true ∧ s.objs.length ≤ j ∧ s.heap.length ≤ c' ∧ snap s' i = some (.fixed d qs c k xs) ∧
+      snap s' j = some (.fixed d qs c' k xs) ∧ objEq i j s' = .ok (true, s') := by
+  obtain ⟨q, ho, hq, hcell⟩ := snap_inv hs
+  obtain ⟨q', s1, k1, xs1, hp, hc, hout, hs'⟩ := pickle_fixed_parts ho h
+  have hq' : qsnap s1 q' = some qs := pickleQuantity_same hz inv hq hp
+  have fr := (pickleQuantity_safe.run s q' s1 (Nat.le_refl _) hp).1
+  have hoi : s1.objs[i]? = some (.fixed d q c) := fr.obj ho
+  have hlen : s.objs.length ≤ s1.objs.length := by
+    obtain ⟨t, ht⟩ := fr.objs; rw [ht]; simp
+  have hkx : k1 = k ∧ xs1 = xs := by
+    have := fr.cell hcell
+    rw [hc] at this
+    simp only [Option.some.injEq, Cell.seq.injEq] at this
+    exact this
+  obtain ⟨rfl, rfl⟩ := hkx
+  have frr : Frame s.heap.length s s' := by
+    subst hs'
+    refine fr.trans ⟨by simp, fun r hr => ?_, ⟨[], by simp⟩, ⟨[_], rfl⟩⟩
+    show (s1.heap ++ [Cell.seq k1 xs1])[r]? = s1.heap[r]?
+    have : r < s1.heap.length := Nat.lt_of_lt_of_le hr fr.len
+    simp [List.getElem?_append_left this]
+  have h1 : snap s' i = some (.fixed d qs c k1 xs1) := snap_stable frr hs
+  have hqq : ∀ n, qsnap s' n = qsnap { s1 with heap := s1.heap ++ [Cell.seq k1 xs1] } n := by
+    intro n; subst hs'; rfl
+  have frh : Frame s1.heap.length s1 { s1 with heap := s1.heap ++ [Cell.seq k1 xs1] } :=
+    ⟨by simp, fun r hr => by simp [List.getElem?_append_left hr], ⟨[], by simp⟩, ⟨[], by simp⟩⟩
+  have hq2 : qsnap s' q' = some qs := by rw [hqq]; exact qsnap_stable frh hq'
+  have h2 : snap s' s1.objs.length = some (.fixed d qs s1.heap.length k1 xs1) := by
+    have hj : s'.objs[s1.objs.length]? = some (.fixed d q' s1.heap.length) := by subst hs'; simp
+    have hcc : s'.heap[s1.heap.length]? = some (Cell.seq k1 xs1) := by subst hs'; simp
+    unfold snap
+    rw [hj]
+    simp only
+    rw [hq2, hcc]
+  refine ⟨s1.objs.length, s1.heap.length, hout, hlen, fr.len, h1, h2, ?_⟩
+  -- `__eq__`: values, quantity, unit string and dimension
+  obtain ⟨qa, hoa, hqa, hca⟩ := snap_inv h1
+  obtain ⟨qb, hob, hqb, hcb⟩ := snap_inv h2
+  obtain ⟨oa, hqoa, _, _, hda, hpa⟩ := qsnap_parts hqa
+  obtain ⟨ob, hqob, _, _, hdb, hpb⟩ := qsnap_parts hqb
+  unfold objEq
+  rw [bind_eval, getObj_of hoa]; simp only
+  rw [bind_eval, getObj_of hob]; simp only
+  rw [bind_eval, readSeq_of hca]; simp only
+  rw [bind_eval, readSeq_of hcb]; simp only
+  rw [bind_eval, qEq_of hqa hqb]; simp only
+  rw [bind_eval, getQ_of hqoa]; simp only
+  rw [bind_eval, getQ_of hqob]; simp only
+  simp [pure_eval, hda, hdb, hpa, hpb]
+
+/-- the interning invariant holds after EVERY history of public operations from the empty session (induction over
+the history; every operation of the alphabet `Op`, failed ones included): the heap-model counterpart of C07's
+`reachable_invariant` -/
+theorem interning_invariant_reachable (db : Db) (hz : db.catByName 0 = none) (ops : List Op) :
+    CInv db (run db St.empty ops) :=
+  run_cinv hz ops (CInv.empty db)
+
+/-- `pickle_scalar_eq` for every reachable state: after ANY history, a pickle round trip of ANY Scalar of the pool
+(on a simple, derived, empty or unknown-caption quantity) that succeeds gives a new, equal Scalar with the
+identical snapshot, and leaves the original as it was -/
+theorem pickle_scalar_eq_reachable (db : Db) (hz : db.catByName 0 = none) (ops : List Op) (s' : St) (i : Nat)
+    (qs : QSnap) (x : Rat) (out : Out) (hs : snap (run db St.empty ops) i = some (.scalar qs x))
+    (h : exec db (.pickle i) (run db St.empty ops) = .ok (out, s')) :
+    ∃ j, out = .obj j true ∧ (run db St.empty ops).objs.length ≤ j ∧ snap s' i = some (.scalar qs x) ∧
+      snap s' j = some (.scalar qs x) ∧ objEq i j s' = .ok (true, s') :=
+  pickle_scalar_eq db hz _ s' (interning_invariant_reachable db hz ops) i qs x out hs h
+
+/-- `pickle_fixedarray_eq` for every reachable state -/
+theorem pickle_fixedarray_eq_reachable (db : Db) (hz : db.catByName 0 = none) (ops : List Op) (s' : St) (i d : Nat)
+    (qs : QSnap) (c : Ref) (k : Kind) (xs : List Rat) (out : Out)
+    (hs : snap (run db St.empty ops) i = some (.fixed d qs c k xs))
+    (h : exec db (.pickle i) (run db St.empty ops) = .ok (out, s')) :
+    ∃ j c', out = .obj j true ∧ (run db St.empty ops).objs.length ≤ j ∧ (run db St.empty ops).heap.length ≤ c' ∧
+      snap s' i = some (.fixed d qs c k xs) ∧ snap s' j = some (.fixed d qs c' k xs) ∧
+      objEq i j s' = .ok (true, s') :=
+  pickle_fixedarray_eq db hz _ s' (interning_invariant_reachable db hz ops) i d qs c k xs out hs h
 
 /-! ### the round trips on concrete derived, empty, captioned and FixedArray cases (model runs) -/
 
